@@ -253,7 +253,10 @@ class Flow:
         b = sorted(self.defs.index(d) for d in self.reaching(name, root) if d.kind != "mutate")
         if a == b or not a:
             return None
-        return f"{name}@" + "_".join(str(self.defs[i].node) for i in a)
+        # canonical label: rank of each definition among this variable's definitions (program order), so that two
+        # alpha-equivalent functions produce the same label
+        ranks = [i for i, d in enumerate(self.defs) if d.var == name]
+        return f"{name}@" + "_".join(str(ranks.index(i)) for i in a)
 
     def _expand(self, new: ast.AST, orig: ast.AST, at: int, depth: int, stop: set[str], root: int) -> ast.AST:
         flow = self
